@@ -268,3 +268,63 @@ class OpaqueFn(object):
 
 def opaque(name, definition):
     return OpaqueFn(name, definition)
+
+
+# ----------------------------------------------------------------------------------------------
+# trigonometry (assumption A2): cos/sin are uninterpreted; the facts below are instances of real identities
+_TRIG = {}
+
+
+def _trig_fn(name):
+    if name not in _TRIG:
+        _TRIG[name] = z3.Function("math." + name, z3.RealSort(), z3.RealSort())
+    return _TRIG[name]
+
+
+def Cos(t):
+    if is_sym(t):
+        return _trig_fn("cos")(t)
+    import math
+    return math.cos(t)
+
+
+def Sin(t):
+    if is_sym(t):
+        return _trig_fn("sin")(t)
+    import math
+    return math.sin(t)
+
+
+def Pi():
+    if z3 is None:
+        import math
+        return math.pi
+    return z3.Real("pi")
+
+
+def trig_pythagoras(t):
+    if not is_sym(t):
+        return True
+    return Cos(t) * Cos(t) + Sin(t) * Sin(t) == 1
+
+
+def trig_addition(a, b):
+    """cos(a+b), sin(a+b) in terms of a and b."""
+    if not (is_sym(a) or is_sym(b)):
+        return True
+    return z3.And(Cos(a + b) == Cos(a) * Cos(b) - Sin(a) * Sin(b), Sin(a + b) == Sin(a) * Cos(b) + Cos(a) * Sin(b),
+                  trig_pythagoras(a), trig_pythagoras(b), trig_pythagoras(a + b))
+
+
+def trig_period(t, turns=1):
+    if not is_sym(t):
+        return True
+    p = 2 * Pi() * turns
+    return z3.And(Cos(t + p) == Cos(t), Sin(t + p) == Sin(t))
+
+
+def trig_chord(d):
+    """2 - 2 cos d <= d^2   (the chord is not longer than the arc)."""
+    if not is_sym(d):
+        return True
+    return 2 - 2 * Cos(d) <= d * d
